@@ -1,6 +1,6 @@
 """C03 - a fitted model depends only on parameters, the last training set and seeds."""
 from vf import loader
-from vf.core import Clause, Outcome, Violation, require
+from vf.core import Clause, Outcome, Violation, require, round_trip, COPIES
 from vf import registry as R
 
 import numpy as np
@@ -53,6 +53,7 @@ def check_refit(case):
     differing = False
     current = 0
     reconfigured = False
+    copied = False
     for step, h in enumerate(case["history"]):
         i, seed = h[0], h[1]
         want = h[2] if len(h) > 2 and case.get("spec2") is not None else 0
@@ -64,6 +65,15 @@ def check_refit(case):
             reconfigured = True
         data = case["datasets"][i]
         fr = bool(h[3]) if len(h) > 3 else False
+        how = h[4] if len(h) > 4 else None
+        if how and step > 0:
+            # the fitted instance goes through persistence / a deep copy and the COPY is trained next: it is "the instance" from here on
+            # (that pickling works at all is C04's business: a refusal leaves the history as it is)
+            try:
+                inst = round_trip(inst, how)
+                copied = True
+            except Exception:  # noqa: BLE001
+                pass
         X, y = _fit(entry, inst, data, seed, fr)
         got = _fp(entry, inst, data, X, y, seed)
         fresh = clone(inst)
@@ -129,7 +139,8 @@ def check_refit(case):
             differing = True
         prev = i
     nfits = len(case["history"])
-    return Outcome([name, "fits=%d" % min(nfits, 4), "different-datasets" if differing else "same-dataset", "reconfigured-between-fits" if reconfigured else "one-configuration"],
+    return Outcome([name, "fits=%d" % min(nfits, 4), "different-datasets" if differing else "same-dataset", "reconfigured-between-fits" if reconfigured else "one-configuration",
+                    "copied-between-fits" if copied else "same-object-throughout"],
                    nfits >= 2 and (differing or reconfigured))
 
 
@@ -142,7 +153,7 @@ def _refit_cases(draw, name, tier="quick"):
     datasets = [entry.data(draw) for _ in range(nd)]
     nh = draw(st.integers(2, 4 if tier == "quick" else 6))
     spec2 = R.spec_for(name, draw, flavour) if draw(st.integers(0, 2)) == 0 else None
-    history = [[draw(st.integers(0, nd - 1)), draw(st.integers(0, 2**31 - 10)), draw(st.integers(0, 1)), draw(st.booleans())] for _ in range(nh)]
+    history = [[draw(st.integers(0, nd - 1)), draw(st.integers(0, 2**31 - 10)), draw(st.integers(0, 1)), draw(st.booleans()), draw(st.sampled_from(COPIES))] for _ in range(nh)]
     if len(set(h[0] for h in history)) == 1:
         history[-1][0] = (history[-1][0] + 1) % nd
     return dict(cls=name, spec=spec, spec2=spec2, datasets=datasets, history=history)
